@@ -4,11 +4,14 @@ import os, subprocess, sys
 VERIF = os.path.dirname(os.path.dirname(os.path.abspath(__file__)))
 sys.path.insert(0, os.path.join(VERIF, 'tools'))
 import registry
-mods = sorted({m for p in registry.PROPS.values() for m in p['lean_modules']})
+claimed = set(open(os.path.join(VERIF, 'tools', 'claimed.txt')).read().split())
+mods = sorted({m for pid, p in registry.PROPS.items() if pid in claimed for m in p['lean_modules']})
 os.makedirs(os.path.join(VERIF, 'build'), exist_ok=True)
 # translators must have produced the generated Lean files before the first build
 import check
 for pid, spec in registry.PROPS.items():
+    if pid not in claimed:
+        continue
     for t in spec.get('translators', []):
         mod = __import__('translators.' + t, fromlist=['run'])
         mod.run(check.SRC, os.path.join(check.LEAN, 'N2k', 'Gen'))
